@@ -81,11 +81,15 @@ class BoundedStream(io.IOBase):
         # NOTE(kgriffs): Default to reading all remaining bytes if the
         # size is not specified or is out of bounds. This behaves
         # similarly to the IO streams passed in by non-wsgiref servers.
-        if size is None or size == -1 or size > self._bytes_remaining:
+        if size is None or size < 0 or size > self._bytes_remaining:
             size = self._bytes_remaining
 
-        self._bytes_remaining -= size
-        return target(size)
+        # NOTE: account for what was actually consumed; the wrapped stream
+        # may return less than requested (a short read, or a line that ends
+        # before the limit).
+        result = target(size)
+        self._bytes_remaining -= len(result)  # type: ignore[arg-type]
+        return result
 
     def readable(self) -> bool:
         """Return ``True`` always."""
@@ -139,7 +143,22 @@ class BoundedStream(io.IOBase):
 
         """
 
-        return self._read(hint, self.stream.readlines)
+        # NOTE: built on readline() so that no more than the declared
+        # length is ever consumed from the wrapped stream. As in the io
+        # module, a hint of None, zero or less means "no hint".
+        if hint is None or hint <= 0:
+            hint = self._bytes_remaining
+
+        lines: List[bytes] = []
+        total = 0
+        while total < hint:
+            line = self.readline()
+            if not line:
+                break
+            lines.append(line)
+            total += len(line)
+
+        return lines
 
     def write(self, data: bytes) -> None:
         """Raise IOError always; writing is not supported."""
